@@ -250,6 +250,30 @@ def run(ctx):
         check(ctx, lentil, c, spec[c['id']], rng2)
         ctx.case(c['id'], nontrivial=len(c['steps']) > 1 or c['steps'][0]['mask']['k'] != 'none')
     reuse_checks(ctx, lentil, rng)
+    # a plane with default attributes changes NOTHING: every public attribute of the wavefront, the descriptive ones too
+    for cls in ('Plane', 'Pupil', 'Image', 'Tilt'):
+        for wkw in (dict(), dict(pixelscale=0.5, focal_length=4.0), dict(pixelscale=(0.5, 0.25), diameter=2.0, focal_length=4.0, tilt=[1e-6, -2e-6])):
+            w0 = lentil.Wavefront(2.0 ** -7, **wkw)
+            if cls == 'Pupil':
+                w0 = lentil.Wavefront(2.0 ** -7, ptype=lentil.pupil, **wkw)
+                pl = lentil.Pupil(focal_length=w0.focal_length)      # (a pupil hands over ITS focal length: give it the wavefront's)
+            elif cls == 'Image':
+                w0 = lentil.Wavefront(2.0 ** -7, ptype=lentil.image, **wkw)
+                pl = lentil.Image()
+            elif cls == 'Tilt':
+                continue                       # (a tilt element is not a default plane: it records itself)
+            else:
+                pl = lentil.Plane()
+            ctx.case(('default-plane', cls, str(sorted(wkw))))
+            try:
+                w1 = w0 * pl
+            except TypeError:
+                continue                       # combination not allowed by the type table (C08)
+            names = ('wavelength', 'pixelscale', 'diameter', 'focal_length', 'shape', 'ptype')
+            diff = [nm for nm in names if str(getattr(w0, nm, None)) != str(getattr(w1, nm, None))]
+            if diff or len(w1.data) != len(w0.data):
+                ctx.violation({'kind': 'default-plane-changes-attribute', 'cls': cls, 'attribute': diff[0] if diff else 'fields'},
+                              {'before': {nm: str(getattr(w0, nm, None)) for nm in names}, 'after': {nm: str(getattr(w1, nm, None)) for nm in names}}, case=None)
     ctx.traces += len(cases)
     ctx.extra.update({'refused_pixelscale_cases': sum(1 for c in cases if c['conflict']),
                       'with_propagation': sum(1 for c in cases if c['route'] == 'pupil-prop'),
